@@ -15,6 +15,7 @@ L == INSTANCE Layout
 ST == INSTANCE Structs
 RT == INSTANCE RustTypes
 RUN == INSTANCE Runtime
+EN == INSTANCE Entries
 
 Rec == ndJsonDeserialize(IOEnv.TRACE)
 Enforce == IOEnv.ENFORCE
@@ -230,6 +231,97 @@ C04(c, o) ==
               \cup RUN!RunFails(c.S, evs) \cup RUN!FieldFails(c.S, evs)
             ELSE {}) ]
 
+(* ------------------------------------------------------------------ C14 *)
+EntEv(o, kind) == SelectSeq(RtOf(o, "entries"), LAMBDA e : e.ev = kind)
+Count(s, P(_)) == Cardinality({ i \in DOMAIN s : P(s[i]) })
+PadWg(w) == [ i \in 1 .. 3 |-> ToString(IF w[i] = 0 THEN 1 ELSE w[i]) ]
+CtorFails(name, ev) ==
+  LET lg == ev.log
+      n == Len(lg) IN
+  IF n < 3 THEN { "compute constructor for " \o name \o " made " \o Str(n) \o " device calls" } ELSE
+  Chk(lg[1].ev = "rt.create_shader_module" /\ lg[1].source = TRUE, "compute constructor for " \o name \o " does not create the shader module from SOURCE first")
+  \cup Chk(lg[n - 1].ev = "rt.create_pipeline_layout" /\ (\A i \in 2 .. (n - 2) : lg[i].ev = "rt.create_bgl"), "compute constructor for " \o name \o " does not build the module's own pipeline layout")
+  \cup Chk(lg[n].ev = "rt.create_compute_pipeline" /\ Has(lg[n], "entry_point") /\ lg[n].entry_point = name, "compute constructor for " \o name \o " targets entry point " \o (IF Has(lg[n], "entry_point") THEN ToString(lg[n].entry_point) ELSE "none"))
+  \cup Chk(lg[n].ev = "rt.create_compute_pipeline" /\ Has(lg[n], "layout") /\ lg[n].layout = lg[n - 1].id /\ lg[n].module = lg[1].id /\ ev.returned = lg[n].id,
+           "compute constructor for " \o name \o " does not use its own shader module and pipeline layout")
+RejectedAbout(o, flag) == Has(o, "compile") /\ o.compile.outcome = "reject" /\ flag \in Range(o.compile.flags)
+C14(c, o) ==
+  IF HasS(c) /\ ValidAll(o) /\ RetOk(o) /\ RejectedAbout(o, "entry")
+  THEN [ dom |-> TRUE, fails |-> { "the module does not compile and the compiler points at the entry point items: " \o o.compile.errors[1] } ] ELSE
+  IF ~(HasS(c) /\ ValidAll(o) /\ RetOk(o) /\ Compiled(o)) THEN NoVerdict ELSE
+  LET S == c.S
+      E == S.entries
+      consts == EntEv(o, "rt.entry_const")
+      comp == EN!EntriesOf(S, "compute")
+      wgs == EntEv(o, "rt.wg_size")
+      ctors == EntEv(o, "rt.compute_ctor")
+      orc == SelectSeq(o.oracle.entries, LAMBDA x : x.stage = "COMPUTE")
+  IN [ dom |-> TRUE, fails |->
+      { "the entry point API cannot be used as documented: " \o m : m \in ProbeFail(o, "entries") }
+      \cup (IF ProbeFail(o, "entries") # {} THEN {} ELSE
+        Chk(Len(consts) = Len(E), "number of ENTRY_ constants " \o Str(Len(consts)) \o " for " \o Str(Len(E)) \o " entry points")
+        \cup UNION { Chk(Count(consts, LAMBDA k : k.value = E[i].name) = 1, "no unique constant exports the entry point name " \o E[i].name) : i \in DOMAIN E }
+        \cup Chk([ i \in DOMAIN wgs |-> wgs[i].value ] = [ i \in DOMAIN orc |-> PadWg(orc[i].wg) ],
+                 "workgroup size constants " \o ToJson([ i \in DOMAIN wgs |-> wgs[i].value ]) \o " expected " \o ToJson([ i \in DOMAIN orc |-> PadWg(orc[i].wg) ]))
+        \cup Chk(Len(ctors) = Len(comp), "number of compute pipeline constructors")
+        \cup (IF Len(ctors) = Len(comp) THEN UNION { CtorFails(comp[i].name, ctors[i]) : i \in DOMAIN comp } ELSE {})
+        \cup UNION { LET e == EN!EntriesOf(S, "fragment")[i]
+                         m == SelectSeq(EntEv(o, "rt.fragment_entry"), LAMBDA x : x.fn = e.name \o "_entry")
+                         st == SelectSeq(EntEv(o, "rt.fragment_state"), LAMBDA x : x.fn = e.name \o "_entry")
+                     IN Chk(Len(m) = 1, "no fragment entry helper for " \o e.name)
+                        \cup (IF Len(m) = 1 THEN
+                                Chk(m[1].entry_point = e.name, "fragment helper of " \o e.name \o " names entry point " \o ToString(m[1].entry_point))
+                                \cup Chk(m[1].targets = EN!TargetCount(S, e), "fragment helper of " \o e.name \o " asks for " \o Str(m[1].targets) \o " colour targets but needs " \o Str(EN!TargetCount(S, e)) \o " to address every @location it writes")
+                              ELSE {})
+                        \cup (IF Len(st) = 1 THEN Chk(st[1].module_same /\ st[1].targets_same /\ st[1].constants_same /\ Has(st[1], "entry_point") /\ st[1].entry_point = e.name, "fragment_state does not forward module, name, targets and constants unchanged for " \o e.name) ELSE { "fragment_state not exercised for " \o e.name })
+                     : i \in DOMAIN EN!EntriesOf(S, "fragment") }
+        \cup UNION { LET e == EN!EntriesOf(S, "vertex")[i]
+                         m == SelectSeq(EntEv(o, "rt.vertex_entry"), LAMBDA x : x.fn = e.name \o "_entry")
+                         st == SelectSeq(EntEv(o, "rt.vertex_state"), LAMBDA x : x.fn = e.name \o "_entry")
+                     IN Chk(Len(m) = 1, "no vertex entry helper for " \o e.name)
+                        \cup (IF Len(m) = 1 THEN
+                                Chk(m[1].entry_point = e.name, "vertex helper of " \o e.name \o " names entry point " \o ToString(m[1].entry_point))
+                                \cup Chk(Len(m[1].buffers) = Len(EN!StructParams(e)), "vertex helper of " \o e.name \o " has " \o Str(Len(m[1].buffers)) \o " buffers for " \o Str(Len(EN!StructParams(e))) \o " struct parameters")
+                              ELSE {})
+                        \cup (IF Len(st) = 1 THEN Chk(st[1].module_same /\ st[1].buffers_same /\ st[1].constants_same /\ Has(st[1], "entry_point") /\ st[1].entry_point = e.name, "vertex_state does not forward module, name, buffers and constants unchanged for " \o e.name) ELSE { "vertex_state not exercised for " \o e.name })
+                     : i \in DOMAIN EN!EntriesOf(S, "vertex") }) ]
+
+(* ------------------------------------------------------------------ C07 *)
+LayoutEv(o, name) == SelectSeq(RtOf(o, "layout"), LAMBDA e : e.struct = name)
+OffsOf(lay) == [ n \in { lay.offsets[i].name : i \in DOMAIN lay.offsets } |-> (CHOOSE x \in Range(lay.offsets) : x.name = n).off ]
+AttrSet(as) == { [ format |-> a.format, location |-> a.location, offset |-> a.offset ] : a \in Range(as) }
+ExpAttrSet(S, name, offs) ==
+  { [ format |-> EN!VertexFormatOf(m.ty), location |-> m.io.n, offset |-> offs[m.name] ] : m \in Range(EN!LocMembers(S, name)) }
+BufferFails(S, o, e, i, b, step) ==
+  LET p == EN!StructParams(e)[i]
+      lay == LayoutEv(o, p.ty)
+  IN IF Len(lay) # 1 THEN { "PROJ no measured layout for vertex struct " \o p.ty } ELSE
+     Chk(b.step = step, "buffer " \o Str(i) \o " of " \o e.name \o " does not carry the caller's step mode for parameter " \o p.name)
+     \cup Chk(b.stride = lay[1].size, "stride of buffer " \o Str(i) \o " of " \o e.name \o " is " \o Str(b.stride) \o " but struct " \o p.ty \o " has size " \o Str(lay[1].size))
+     \cup Chk(AttrSet(b.attrs) = ExpAttrSet(S, p.ty, OffsOf(lay[1])) /\ Len(b.attrs) = Len(EN!LocMembers(S, p.ty)),
+              "attributes of " \o p.ty \o " in " \o e.name \o " are " \o ToJson(AttrSet(b.attrs)) \o " but the @location members give " \o ToJson(ExpAttrSet(S, p.ty, OffsOf(lay[1]))))
+     \cup Chk(EN!VertexBufferOk(b.stride, Range(b.attrs)), "buffer layout of " \o p.ty \o " violates wgpu's vertex buffer rules (stride/offset alignment or bounds)")
+C07(c, o) ==
+  IF HasS(c) /\ ValidAll(o) /\ RetOk(o) /\ RejectedAbout(o, "vertex")
+  THEN [ dom |-> TRUE, fails |-> { "the module does not compile and the compiler points at the vertex buffer items: " \o o.compile.errors[1] } ] ELSE
+  IF ~(HasS(c) /\ ValidAll(o) /\ RetOk(o) /\ Compiled(o) /\ \E i \in DOMAIN c.S.entries : c.S.entries[i].stage = "vertex" /\ EN!StructParams(c.S.entries[i]) # << >>) THEN NoVerdict ELSE
+  LET S == c.S IN
+  [ dom |-> TRUE, fails |->
+      { "the vertex entry API cannot be used as documented: " \o m : m \in ProbeFail(o, "entries") }
+      \cup (IF ProbeFail(o, "entries") # {} THEN {} ELSE
+        UNION { LET e == EN!EntriesOf(S, "vertex")[k]
+                    m == SelectSeq(EntEv(o, "rt.vertex_entry"), LAMBDA x : x.fn = e.name \o "_entry")
+                IN IF Len(m) # 1 THEN { "no vertex entry helper for " \o e.name }
+                   ELSE IF Len(m[1].buffers) # Len(EN!StructParams(e)) THEN { "vertex helper of " \o e.name \o " has " \o Str(Len(m[1].buffers)) \o " buffers for " \o Str(Len(EN!StructParams(e))) \o " struct parameters" }
+                   ELSE UNION { BufferFails(S, o, e, i, m[1].buffers[i], m[1].steps_given[i]) : i \in DOMAIN m[1].buffers }
+                        \cup Chk(\A i, j \in DOMAIN m[1].buffers : \A a \in Range(m[1].buffers[i].attrs), b \in Range(m[1].buffers[j].attrs) : (a.location = b.location) => (i = j /\ a = b),
+                                 "a shader location is used twice across the buffers of " \o e.name)
+                : k \in DOMAIN EN!EntriesOf(S, "vertex") }
+        \cup UNION { LET vs == EntEv(o, "rt.vertex_struct")[k] IN
+                     Chk(Len(vs.layout) = 1 /\ vs.layout[1].stride = vs.size_of /\ vs.layout[1].step = "Instance" /\ AttrSet(vs.layout[1].attrs) = AttrSet(vs.attrs),
+                         "vertex_buffer_layout of " \o vs.struct \o " is not (size_of, caller's step mode, VERTEX_ATTRIBUTES)")
+                     : k \in DOMAIN EntEv(o, "rt.vertex_struct") }) ]
+
 (* ------------------------------------------------------------------ C17 *)
 Renders(o) == Has(o, "renders") /\ o.renders.to_string.ok /\ o.renders.to_string_with_path.ok
 C17(c, o) ==
@@ -284,6 +376,8 @@ Judge0(c, o) ==
     [] Enforce = "C06" -> C06(c, o)
     [] Enforce = "C05" -> C05(c, o)
     [] Enforce = "C04" -> C04(c, o)
+    [] Enforce = "C14" -> C14(c, o)
+    [] Enforce = "C07" -> C07(c, o)
     [] OTHER -> NoVerdict
 
 Stateless(r, c) == [ dom |-> r.dom, fails |-> r.fails, m |-> MemoFor(c) ]
